@@ -992,6 +992,19 @@ func (c *grammarClient) rawOrigin(e *Engine, st *State, ev *emitEvent) string {
 		}
 		return "tainted: " + ev.Verb
 	}
+	// a sanitizer that copies the value in runs between the characters it escapes
+	if nm := declName(c.fd); nm == "quoteIdentifier" || nm == "quoteSQLString" {
+		if ci := c.g.p.chunkIdiomOf(c.fd); ci != nil && ci.writes[ev.Call] {
+			switch ev.Call {
+			case ci.chunk:
+				return "run of the value being quoted, free of " + strconv.Quote(ci.special)
+			case ci.rest:
+				return "rest of the value being quoted, free of " + strconv.Quote(ci.special)
+			default:
+				return "byte of the value being quoted"
+			}
+		}
+	}
 	arg := e.ResolveExpr(ev.Arg)
 	// the generated name of a token kind: x.Kind.String()
 	if call, ok := arg.(*ast.CallExpr); ok && len(call.Args) == 0 {
